@@ -17,6 +17,8 @@ def rel_class(r):
     k = len(r["children"])
     mn, mx = r["min"], r["max"]
     kind = S.rel_kind(r)
+    if mx == -1:
+        return "rel:card[a..*]"
     if kind in BASIC:
         return kind
     if mx == 0:
@@ -107,9 +109,21 @@ def cases(desc):
             continue
         r = rand.rng(seed, "semops-rl", j)
         yield "random-large", rand.rand_model(
-            r, r.randint(15, 80), n_ctcs=0,
+            r, r.choice([r.randint(15, 80), r.randint(126, 400)]), n_ctcs=0,
             group_kinds=("alternative", "or", "mutex", "cardinality"),
             profile=r.choice(["mixed", "deep", "wide"]))
+    # unbounded upper bounds ([a..*] is stored as max = -1 by the UVL reader)
+    for j in range(max(8, desc["n_random_small"] // 4)):
+        if j % n != i:
+            continue
+        r = rand.rng(seed, "semops-star", j)
+        spec = rand.rand_model(r, r.randint(3, 12), n_ctcs=r.choice([0, 0, 1]), ctc_depth=2,
+                               group_kinds=("alternative", "or", "mutex", "cardinality"))
+        rels = [rel for _, rel in S.relations(spec)]
+        for rel in r.sample(rels, max(1, len(rels) // 2)):
+            k = len(rel["children"])
+            rel["min"], rel["max"] = r.choice([(k, -1), (1, -1), (0, -1), (min(2, k), -1)])
+        yield "random-star", spec
     # wide groups (size thresholds): one group of k leaves under the root (+ a second level for some), every
     # kind of cardinality; k<=13 is judged by enumeration, larger k by the DP oracles
     wide = [9, 10, 11, 12, 13, 16, 25, 40, 57, 58, 64, 80, 100]
@@ -174,24 +188,61 @@ def reference(spec, acc):
     return idx, sem_t, sem_c
 
 
-def run(desc, acc, judge, prop):
-    """judge(acc, source, spec, model, idx, sem_tree, sem_ctc, tags) performs the property's oracle."""
-    for source, spec in cases(desc):
-        run_case(acc, judge, prop, source, spec)
+def run(desc, acc, judge, prop, op_factory=None):
+    """judge(acc, source, spec, model, idx, sem_tree, sem_ctc, tags, cls, payload, op) performs the property's oracle."""
+    for k, (source, spec) in enumerate(cases(desc)):
+        run_case(acc, judge, prop, source, spec, op_factory, k)
 
 
-def run_case(acc, judge, prop, source, spec):
+def run_case(acc, judge, prop, source, spec, op_factory=None, case_no=0):
     tags = model_tags(spec)
     cls = source.split(":")[0] + ("|" + "+".join(tags) if tags else "")
-    payload = {"source": source, "spec": spec}
+    payload = {"source": source, "spec": spec if len(S.feature_names(spec)) <= 80 else None}
     ok, model = guard(acc, cls, "builder", [], payload, lambda: S.build(spec), clause="harness-build")
     if not ok:
         return
     idx, sem_t, sem_c = reference(spec, acc)
-    before = S.snapshot(model)
-    judge(acc, source, spec, model, idx, sem_t, sem_c, tags, cls, payload)
-    after = S.snapshot(model)
+    before = S.snapshot_or_none(model)
+    op = op_factory() if op_factory else None
+    judge(acc, source, spec, model, idx, sem_t, sem_c, tags, cls, payload, op)
+    after = S.snapshot_or_none(model)
     if before != after:
         acc.fail(cls, "model-unchanged", prop, [], "mutated", S.first_diff(before, after), payload)
     if len(acc.samples) < 4 and source.startswith("shape+"):
         acc.sample({"source": source, "spec": spec})
+    # history: the SAME model object is edited in place through public attributes/methods and analysed again
+    # with the SAME operation object (and the first result must not leak into the second)
+    if op is not None and case_no % 5 == 0 and len(S.feature_names(spec)) >= 2:
+        import copy
+        r = rand.rng("semops-edit", S.digest(spec))
+        es = copy.deepcopy(spec)
+        rels_s = [(f, k) for f in S.features(es["root"]) for k in range(len(f.get("rels", [])))]
+        fs, k = r.choice(rels_s)
+        rel_s = fs["rels"][k]
+        n = len(rel_s["children"])
+        choices = [(a, b) for a in range(0, n + 1) for b in range(max(a, 1), n + 1) if (a, b) != (rel_s["min"], rel_s["max"])]
+        newcard = r.choice(choices)
+        # locate the live relation (same pre-order position)
+        live = None
+        stack = [model.root]
+        while stack:
+            f = stack.pop()
+            if f.name == fs["name"]:
+                live = f.relations[k]
+                break
+            for rel in reversed(f.relations):
+                stack.extend(reversed(rel.children))
+        live.card_min, live.card_max = newcard
+        rel_s["min"], rel_s["max"] = newcard
+        if r.random() < 0.5:
+            from flamapy.metamodels.fm_metamodel.models import Feature, Relation
+            owner = model.root
+            nf = Feature("Added9", [])
+            owner.add_relation(Relation(owner, [nf], 1, 1))
+            es["root"]["rels"].append({"min": 1, "max": 1, "children": [{"name": "Added9", "rels": []}]})
+        idx2, sem_t2, sem_c2 = reference(es, acc)
+        tags2 = model_tags(es)
+        cls2 = "history:edit-in-place" + ("|" + "+".join(tags2) if tags2 else "")
+        payload2 = {"source": "history:edit-in-place", "spec": es if len(S.feature_names(es)) <= 80 else None,
+                    "before_edit": payload["spec"]}
+        judge(acc, "history:edit-in-place", es, model, idx2, sem_t2, sem_c2, tags2, cls2, payload2, op)
